@@ -78,7 +78,7 @@ func (p *Publish) dump(w io.Writer) {
 // WellFormed returns a Malformed error if the packet does not follow
 // the specification.
 func (p *Publish) WellFormed() *Malformed {
-	if len(p.topicName) == 0 {
+	if len(p.topicName) == 0 && p.topicAlias == 0 {
 		return newMalformed(p, "topic name", "empty")
 	}
 	switch p.QoS() {
